@@ -18,7 +18,8 @@ enum { R_CORRECT = 0, R_WRONG_ID, R_WRONG_AGGR_TIME, R_WRONG_PUB_TIME, R_SHAPE, 
 static const char *RNAME[R_NREPLY] = {"correct", "wrong-id", "wrong-aggr-time", "wrong-pub-time", "shape", "other-input", "right-altered", "right-removed",
                                       "right-added", "left-altered", "status", "error-pdu", "bad-mac", "no-chain", "no-aggr-time-field", "other-version", "empty",
                                       "extra-right-lowest", "extra-left-lowest", "extra-right-highest", "drop-lowest"};
-static const uint64_t STATUSES[] = {0x0101, 0x0102, 0x0103, 0x0104, 0x0105, 0x0106, 0x0107, 0x0200, 0x0201, 0x0202, 0x0300, 0x0301, 0x999};
+static const uint64_t STATUSES[] = {0x0101, 0x0102, 0x0103, 0x0104, 0x0105, 0x0106, 0x0107, 0x0200, 0x0201, 0x0202, 0x0300, 0x0301, 0x999,
+                                   0x100000000ULL, 0x8000000000000000ULL, 0xffffffff00000000ULL, 0x100000101ULL};   /* wider than 32 bits */
 #define NSTATUS ((int)(sizeof STATUSES / sizeof *STATUSES))
 
 typedef struct {
@@ -486,7 +487,7 @@ static void run(void) {
 			if ((tail == 0 || tail == 2) && !(reply == R_CORRECT || reply == R_RIGHT_ALTERED || reply == R_OTHER_INPUT || reply == R_SHAPE || reply >= R_EXTRA_RIGHT_LOWEST)) continue;
 		}
 		for (sub = 0; sub < nsub; sub++) {
-			if (!VF_THOROUGH && sub > 1) continue;
+			if (!VF_THOROUGH && sub > 1 && !((reply == R_STATUS || reply == R_ERROR_PDU) && sub >= NSTATUS - 4)) continue;   /* quick: two ordinary codes and the four wider than 32 bits */
 			if (!vf_case_begin("ext:if%d:tr%d:v%d:tail%d:n%d:target%d:pr%d:%s:%d", iface, tr, ver, tail, nch, target, pubrec, RNAME[reply], sub)) continue;
 			one_case(iface, tr, ver, tail, nch, target, pubrec, reply, sub);
 			vf_case_end(1);
